@@ -2009,6 +2009,7 @@ class FileBuilder:
             Exception: If ``func`` raised an exception.
         """
         cache_file_created_dirs = []
+        started_writing_cache = False
         try:
             # It might be impossible to create the directory for
             # cache_filename. We call _make_dirs early on so that we raise
@@ -2027,10 +2028,15 @@ class FileBuilder:
                 logger.info(
                     'Moved cache file {:s} to a temporary directory'.format(
                         cache_filename))
+            started_writing_cache = True
             self._new_cache.write(cache_filename)
             logger.info('Wrote cache file {:s}'.format(cache_filename))
         except Exception:
             self._is_finished_build = True
+            if started_writing_cache:
+                # Don't leave behind a partially written cache file.
+                # _roll_back restores the previous cache file, if any.
+                FileBuilder._try_to_remove_file(cache_filename)
             self._roll_back(cache_file_created_dirs)
             raise
 
